@@ -10,6 +10,19 @@ from . import lib_fm as F
 from .lib_fm import V, N, R, op, call, el, rng_, assign, decl, unit, NONE
 
 
+_NONFINITE = re.compile(r'(?<![\w.])[+-]?(nan|inf|infinity)(?![\w.])', re.I)
+_orig_parse_output = F.parse_output
+
+
+def install_nonfinite_guard():
+    """A transformed program that reads outside an array may print NaN / Infinity; lib_fm.parse_output cannot
+    represent those.  They are replaced by a value outside the machine's magnitude bound (so it can never equal
+    an expected value) before parsing.  Only affects the process of the calling driver."""
+    def parse_output(text, nruns):
+        return _orig_parse_output(_NONFINITE.sub('123456.75', text), nruns)
+    F.parse_output = parse_output
+
+
 # ----------------------------------------------------------------------------- C29: ASSOCIATE programs
 class AssocGen(F.Gen):
     """Nested ASSOCIATE blocks (up to `max_depth` deep) over scalar variables, array elements, whole arrays
@@ -305,6 +318,8 @@ class AssocGen(F.Gen):
         self.levels.append(lvl)
         self.assoc_depth += 1
         body = self.block(d - 1, rng.randint(1, 3))
+        if self.print_names and lvl['scal'] and rng.random() < 0.6:
+            body.append({'s': 'print', 'items': [V(rng.choice(lvl['scal'])), self.int_expr(1, self.int_scalars)]})
         self.assoc_depth -= 1
         self.int_writable, self.int_scalars, self.arr_alias, self.sec_alias, self.levels, self.var_alias = saved
         for _ in names:
